@@ -155,8 +155,8 @@ LoadSeq(data, k, acc) ==
              w == IF IsZeroItem(it) THEN << >>
                   ELSE LET bs == ItemBytes(it)
                            nz == {i \in 1 .. Len(bs) : bs[i] # 0}
-                       IN [j \in {(base + i - 1) % MB : i \in nz} |->
-                             bs[CHOOSE i \in nz : (base + i - 1) % MB = j /\ \A i2 \in nz : (base + i2 - 1) % MB = j => i2 <= i]]
+                       \* (an item is at most 64 KiB long: its bytes lie on distinct addresses)
+                       IN [j \in {(base + i - 1) % MB : i \in nz} |-> bs[((j - base) % MB) + 1]]
              lbls == IF it.label # "" THEN (it.label :> acc.ctr) @@ acc.labels ELSE acc.labels
          IN LoadSeq(data, k + 1,
               [acc EXCEPT !.mem = w @@ kept, !.ctr = @ + len, !.labels = lbls,
